@@ -108,6 +108,10 @@ def refine_steps(ctx, cfg, d, field, u0s, t0, hs, sigp="step", with_bw=False):
     for i, h in enumerate(hs):
         new = solver.step(state, dt=jnp.asarray(h), damp=cfg.damp)
         s0 = sm.state_slices(cfg, state)
+        if not sm.state_is_finite(new):
+            sig, why = sm.nonfinite_signature(ctx, cfg, stepper, s0, t, F(h))
+            ctx.violation(sig, why, dict(case, step=i))
+            return objs if "objs" in dir() else None
         try:
             ms, aux, info = stepper.step(s0, t, F(h), aux_of(cfg, state))
         except core.ModelError as e:
